@@ -882,6 +882,29 @@ fn c17_circuit_roundtrip() {
         match data.common.to_bytes(&gs).ok().and_then(|b| crate::plonk::circuit_data::CommonCircuitData::<F, D>::from_bytes(b, &gs).ok()) { Some(c2) => if c2 != data.common { bad.push(format!("{tag}: common data bytes round trip differs")) }, None => bad.push(format!("{tag}: common data byte round trip failed")) }
         match data.verifier_only.to_bytes().ok().and_then(|b| crate::plonk::circuit_data::VerifierOnlyCircuitData::<PC, D>::from_bytes(b).ok()) { Some(v2) => if v2 != data.verifier_only { bad.push(format!("{tag}: verifier-only bytes round trip differs")) }, None => bad.push(format!("{tag}: verifier-only byte round trip failed")) }
     }
+    // the compressed-proof codec on proofs in which FRI query positions COINCIDE (the compressed form stores one opening per distinct position): small
+    // LDE domains; at least one tested proof must have a repeated query index, which is checked, not hoped for
+    {
+        let mut with_repeat = 0usize;
+        for (k, n) in [(0u64, 3usize), (1, 5), (2, 12), (3, 3), (4, 20)] {
+            let mut cfg = cfg_small(); cfg.fri_config.num_query_rounds = 28;
+            let (data, proof) = circuit::<PC>(cfg, n, 31 + k + seed(), false);
+            let idx = proof.get_challenges(proof.get_public_inputs_hash(), &data.verifier_only.circuit_digest, &data.common).map(|c| c.fri_challenges.fri_query_indices).unwrap_or_default();
+            let mut d = idx.clone(); d.sort(); d.dedup();
+            if d.len() < idx.len() { with_repeat += 1; }
+            cases += 1;
+            match catch_unwind(AssertUnwindSafe(|| data.compress(proof.clone()))) {
+                Ok(Ok(comp)) => match catch_unwind(AssertUnwindSafe(|| crate::plonk::proof::CompressedProofWithPublicInputs::<F, PC, D>::from_bytes(comp.to_bytes(), &data.common))) {
+                    Ok(Ok(c2)) => { if c2 != comp { bad.push(format!("compressed proof ({} of {} query positions distinct): byte round trip differs", d.len(), idx.len())); }
+                                    else if data.verify_compressed(c2).is_err() { bad.push(format!("compressed proof ({} of {} query positions distinct): decoded proof rejected", d.len(), idx.len())); } }
+                    Ok(Err(e)) => bad.push(format!("compressed proof ({} of {} query positions distinct): from_bytes failed: {e}", d.len(), idx.len())),
+                    Err(_) => bad.push(format!("compressed proof ({} of {} query positions distinct): from_bytes PANICKED", d.len(), idx.len())),
+                },
+                _ => bad.push("compress failed on an honest proof".into()),
+            }
+        }
+        if with_repeat == 0 { bad.push("harness: no tested proof has coinciding FRI query positions".into()); }
+    }
     finish("c17_circuit_roundtrip", cases, bad);
 }
 
@@ -1108,6 +1131,37 @@ fn gate_battery<G: crate::gates::gate::Gate<F, D>>(tag: &str, mk: impl Fn() -> G
     }
 }
 
+// the evaluators of a gate in extension degree DD: as many constraints as declared, and the base/packed batch evaluator agrees with the extension one
+fn gate_counts_in_degree<const DD: usize, G: crate::gates::gate::Gate<F, DD>>(tag: &str, gate: G, bad: &mut Vec<String>, cases: &mut usize) where F: Extendable<DD> {
+    use crate::field::types::Sample;
+    use crate::plonk::vars::{EvaluationVars, EvaluationVarsBaseBatch};
+    let (nw, nc, ncons) = (gate.num_wires(), gate.num_constants(), gate.num_constraints());
+    let pih = HashOut::<F>::rand();
+    let batch = 5usize;
+    let rows_w: Vec<Vec<F>> = (0..batch).map(|_| F::rand_vec(nw)).collect();
+    let rows_c: Vec<Vec<F>> = (0..batch).map(|_| F::rand_vec(nc)).collect();
+    let flat_w: Vec<F> = (0..nw).flat_map(|k| (0..batch).map(|b| rows_w[b][k]).collect::<Vec<_>>()).collect();
+    let flat_c: Vec<F> = (0..nc).flat_map(|k| (0..batch).map(|b| rows_c[b][k]).collect::<Vec<_>>()).collect();
+    *cases += 1;
+    let base = catch_unwind(AssertUnwindSafe(|| gate.eval_unfiltered_base_batch(EvaluationVarsBaseBatch::new(batch, &flat_c, &flat_w, &pih))));
+    let exts: Vec<_> = (0..batch).map(|b| {
+        let w: Vec<<F as Extendable<DD>>::Extension> = rows_w[b].iter().map(|&x| x.into()).collect();
+        let c: Vec<<F as Extendable<DD>>::Extension> = rows_c[b].iter().map(|&x| x.into()).collect();
+        catch_unwind(AssertUnwindSafe(|| gate.eval_unfiltered(EvaluationVars { local_constants: &c, local_wires: &w, public_inputs_hash: &pih })))
+    }).collect();
+    for (b, e) in exts.iter().enumerate() {
+        *cases += 1;
+        match e {
+            Err(_) => { bad.push(format!("{tag}: eval_unfiltered PANICKED")); break; }
+            Ok(e) => {
+                if e.len() != ncons { bad.push(format!("{tag}: eval_unfiltered returned {} constraints, gate declares {ncons}", e.len())); break; }
+                if let Ok(base) = &base { if base.len() == batch * ncons && (0..ncons).any(|j| e[j] != base[j * batch + b].into()) { bad.push(format!("{tag}: base/packed evaluator disagrees with the extension evaluator on batch row {b}")); break; } }
+            }
+        }
+    }
+    match base { Err(_) => bad.push(format!("{tag}: eval_unfiltered_base_batch PANICKED (gate declares {ncons} constraints)")), Ok(base) => if base.len() != batch * ncons { bad.push(format!("{tag}: base evaluator returned {} values for a batch of {batch}, gate declares {ncons} constraints", base.len())); } }
+}
+
 #[test]
 fn c07_gates() {
     use crate::gates::arithmetic_base::ArithmeticGate;
@@ -1153,6 +1207,29 @@ fn c07_gates() {
         gate_battery(&format!("{ctag} ReducingGate(5)"), || ReducingGate::<D>::new(5), cfg, &mut bad, &mut cases);
         gate_battery(&format!("{ctag} ReducingExtensionGate(3)"), || ReducingExtensionGate::<D>::new(3), cfg, &mut bad, &mut cases);
         gate_battery(&format!("{ctag} CosetInterpolationGate(2)"), || CosetInterpolationGate::<F, D>::new(2), cfg, &mut bad, &mut cases);
+        // degree-bounded parameterisations, which carry intermediate values
+        gate_battery(&format!("{ctag} CosetInterpolationGate(3, max degree 3)"), || CosetInterpolationGate::<F, D>::with_max_degree(3, 3), cfg, &mut bad, &mut cases);
+        gate_battery(&format!("{ctag} CosetInterpolationGate(4, max degree 6)"), || CosetInterpolationGate::<F, D>::with_max_degree(4, 6), cfg, &mut bad, &mut cases);
+    }
+    // extension degrees other than 2: declared count == returned count, base/packed evaluator == extension evaluator
+    {
+        let cfg = &CircuitConfig::standard_recursion_config();
+        macro_rules! in_degree { ($dd:literal) => {{
+            gate_counts_in_degree::<$dd, _>(&format!("D={} CosetInterpolationGate(3)", $dd), CosetInterpolationGate::<F, $dd>::new(3), &mut bad, &mut cases);
+            gate_counts_in_degree::<$dd, _>(&format!("D={} CosetInterpolationGate(3, max degree 3)", $dd), CosetInterpolationGate::<F, $dd>::with_max_degree(3, 3), &mut bad, &mut cases);
+            gate_counts_in_degree::<$dd, _>(&format!("D={} CosetInterpolationGate(4, max degree 4)", $dd), CosetInterpolationGate::<F, $dd>::with_max_degree(4, 4), &mut bad, &mut cases);
+            gate_counts_in_degree::<$dd, _>(&format!("D={} ArithmeticExtensionGate", $dd), ArithmeticExtensionGate::<$dd>::new_from_config(cfg), &mut bad, &mut cases);
+            gate_counts_in_degree::<$dd, _>(&format!("D={} MulExtensionGate", $dd), MulExtensionGate::<$dd>::new_from_config(cfg), &mut bad, &mut cases);
+            gate_counts_in_degree::<$dd, _>(&format!("D={} ReducingGate(5)", $dd), ReducingGate::<$dd>::new(5), &mut bad, &mut cases);
+            gate_counts_in_degree::<$dd, _>(&format!("D={} ReducingExtensionGate(3)", $dd), ReducingExtensionGate::<$dd>::new(3), &mut bad, &mut cases);
+            gate_counts_in_degree::<$dd, _>(&format!("D={} PoseidonMdsGate", $dd), PoseidonMdsGate::<F, $dd>::new(), &mut bad, &mut cases);
+            gate_counts_in_degree::<$dd, _>(&format!("D={} RandomAccessGate(2)", $dd), RandomAccessGate::<F, $dd>::new_from_config(cfg, 2), &mut bad, &mut cases);
+            gate_counts_in_degree::<$dd, _>(&format!("D={} ExponentiationGate(5)", $dd), ExponentiationGate::<F, $dd>::new(5), &mut bad, &mut cases);
+            gate_counts_in_degree::<$dd, _>(&format!("D={} ArithmeticGate", $dd), ArithmeticGate::new_from_config(cfg), &mut bad, &mut cases);
+            gate_counts_in_degree::<$dd, _>(&format!("D={} BaseSumGate<2>(10)", $dd), BaseSumGate::<2>::new(10), &mut bad, &mut cases);
+        }} }
+        in_degree!(4);
+        in_degree!(5);
     }
     finish("c07_gates", cases, bad);
 }
